@@ -76,6 +76,11 @@ def probe_text(p, anyacct, more=False):
         import re as _re
         have = [r["name"] for r in p["counts"] if _re.match(r"^[A-Za-z]+$", r["name"])]
         if more:
+            # quantities in the other notations of 4.3 in front of the commodity: blank digit-group marks, an exponent
+            for num, lay in (("1 000,50", "after-amount-blank-groups"), ("-1 234 567", "after-amount-blank-groups-neg"), ("1E3", "after-amount-exponent"), ("1.5e-2", "after-amount-exponent-neg")):
+                pre4 = "    " + anyacct + "  " + num + " "
+                out.append((HEAD + "2024-03-01\n" + pre4 + q, 3, u(pre4) + u(q), lay))
+        if more:
             # many bytes, few UTF-16 units in front of the fragment: byte offsets and columns must not be mixed up
             pre3 = "    Расходы:Продукты😀  10 "
             out.append((HEAD + "2024-03-01\n" + pre3 + q, 3, u(pre3) + u(q), "after-amount-nonascii-account"))
